@@ -7,6 +7,7 @@ package main
 
 import (
 	"context"
+	"fmt"
 	"net"
 	"sync"
 	"sync/atomic"
@@ -19,6 +20,7 @@ import (
 	"google.golang.org/grpc/test/bufconn"
 
 	spb "github.com/openconfig/gribi/v1/proto/service"
+	"github.com/openconfig/gribigo/client"
 )
 
 // watchdog bounds every wait; exceeding it is reported as a hang.
@@ -250,5 +252,21 @@ func waitForD(cond func() bool, d time.Duration) bool {
 		} else {
 			time.Sleep(500 * time.Microsecond)
 		}
+	}
+}
+
+// guardedStatus: Status() under a watchdog (a client whose locks are wedged must not wedge the harness).
+func guardedStatus(c *client.Client) (*client.ClientStatus, error) {
+	type res struct {
+		st  *client.ClientStatus
+		err error
+	}
+	ch := make(chan res, 1)
+	go func() { s, e := c.Status(); ch <- res{s, e} }()
+	select {
+	case r := <-ch:
+		return r.st, r.err
+	case <-time.After(watchdog):
+		return nil, fmt.Errorf("HANG: Status() did not return within %v", watchdog)
 	}
 }
